@@ -139,6 +139,16 @@ def run(ctx):
         if got != want:
             ctx.fail("fcs_depends_on_earlier_calls", {"msg": msgs[i].hex(), "lsb_first": lf, "shared_object": True}, want.hex(), got.hex() if isinstance(got, bytes) else got)
             break
+    # a call that fails part-way (input that is not a byte string) leaves nothing behind on the calculator object
+    for bad in ([0x7E, 0xA0, None], [1, 2, "x"], [300], "text", None, [0x7E, -1]):
+        for i in (9, 40, 3):
+            guarded(lambda: shared.calculate_for(bad))
+            o = guarded(lambda: shared.calculate_for(msgs[i]))
+            got = bytes(o.value) if o.ok and isinstance(o.value, (bytes, bytearray)) else repr(o)
+            ctx.tried("fcs_after_failed_call", key=(repr(bad), i))
+            if got != spec[i]:
+                ctx.fail("fcs_depends_on_earlier_failed_call", {"msg": msgs[i].hex(), "after_failed_call": repr(bad)}, spec[i].hex(), got.hex() if isinstance(got, bytes) else got)
+                break
     # the check sequences frames carry: a frame object serialised once and then changed carries the check values of what it
     # emits now (HCS / FCS are this property's check value as the frame classes compute it)
     from props import C09
@@ -189,6 +199,13 @@ def replay(ctx, rp):
     app = msg + (bytes(o.value) if o.ok else b"")
     res = lib.run_model([("spec_x25_reg", app)])[0]
     check_msg(ctx, msg, spec, res)
+    if rp["case"].get("after_failed_call"):
+        shared = crc.CRCCCITT()
+        guarded(lambda: shared.calculate_for(eval(rp["case"]["after_failed_call"], {})))
+        o = guarded(lambda: shared.calculate_for(msg))
+        got = bytes(o.value) if o.ok else None
+        print("after a failed call:", got.hex() if got else got, "expected", spec.hex())
+        return got != spec
     if rp["case"].get("after_other_instances"):
         earlier = crc.CRCCCITT()
         guarded(disturb)
